@@ -367,8 +367,11 @@ def agreement_trace_rule(ctx, P, alloc, peek, ENC, DEC, rule='C08.8'):
         if len(bad[kind]) < 3:
             bad[kind].append(msg)
     for B in (16, 21, 40):
-        sizes = list(range(0, B + 1)) if B <= 21 else [0, 1, 7, 16, 27, 28, 31, 32, 33, 36, 40]
-        tails = list(range(0, B)) if B <= 21 else [0, 1, 4, 20, 35, 36, 39]
+        sizes = list(range(0, B + 1)) if B <= 21 else [0, 1, 7, 16, 27, 28, 30, 31, 32, 33, 36, 40]
+        # index values are explored from the initial state: every write index the allocator produces becomes a read index
+        # once the messages before it were popped (positions no history reaches, e.g. the last 3 bytes, are not states)
+        tails = [0]
+        seen_t = {0}
         for t in tails:
             for s1 in sizes:
                 try:
@@ -379,6 +382,9 @@ def agreement_trace_rule(ctx, P, alloc, peek, ENC, DEC, rule='C08.8'):
                     if not isinstance(r1, int) or '?' in mem or st1['head'] is None or st1['tail'] is None:
                         undecided += 1
                         continue
+                    if r1 != 0 and isinstance(st1['head'], int) and st1['head'] not in seen_t and 0 <= st1['head'] < B:
+                        seen_t.add(st1['head'])
+                        tails.append(st1['head'])
                     if r1 == 0:
                         if s1 + 8 <= B:
                             note('refused', 'ring of %d bytes, empty at index %d: a message of %d bytes is refused although size + 8 <= capacity' % (B, t, s1))
@@ -406,6 +412,9 @@ def agreement_trace_rule(ctx, P, alloc, peek, ENC, DEC, rule='C08.8'):
                             continue
                         if r2 == 0:
                             continue
+                        if isinstance(st2['head'], int) and st2['head'] not in seen_t and 0 <= st2['head'] < B:
+                            seen_t.add(st2['head'])
+                            tails.append(st2['head'])
                         o2 = r2 - BUF
                         if o2 - 4 < 0 or o2 + s2 > B:
                             note('outside', 'ring of %d bytes, message of %d bytes queued at %d: the region for %d more bytes is [%d, %d)' % (B, s1, o1, s2, o2 - 4, o2 + s2))
